@@ -39,7 +39,8 @@ EXTRA_THEOREMS = ("stateful_pool_is_pure", "schedule_independent_stateful", "sta
 REQUIRED = ["Sqfs.C02." + t for t in (
     "run_eq_spec", "backlog_independent", "run_ok", "dequeue_never_internal_error", "finish_writes_everything",
     "realised_eq_serial", "schedule_independent", "jobs_independent", "times_depend_only_on_source_date_epoch",
-    "source_date_epoch_default", "run_eq_specPack_partial", "run_sync_eq_spec", "exCodec_ok") + EXTRA_THEOREMS]
+    "source_date_epoch_default", "run_eq_specPack_partial", "run_sync_eq_spec", "exCodec_ok", "exP_side",
+    "pool_last_answer_is_serial", "realised_unique") + EXTRA_THEOREMS]
 
 NPOLICY = 10
 FL = {"dc": 1, "dh": 2, "df": 4, "dd": 8, "is": 16}
